@@ -74,6 +74,17 @@ void scenariosArchives(Emitter& e)
 		Archive::VolFile::CreateArchive("e.vol", {}); e.emit("vol-empty", "library", mc::readFile("e.vol")); e.emit("vol-empty", "reference", ref::encodeVol({}).bytes);
 		Archive::VolFile::CreateArchive("o4.vol", { "sub/z9", "a.txt", "B", "sub/cc.bin" }); e.emit("vol-4-members", "a", mc::readFile("o4.vol"));
 		Archive::VolFile::CreateArchive("o4.vol", { "B", "./sub/cc.bin", "sub/z9", "./a.txt" }); e.emit("vol-4-members", "b", mc::readFile("o4.vol"));
+		// names sharing a stem (different extensions), a name that is a prefix of another, names differing only in the last
+		// character: every permutation of the list must give the same bytes, and those of the reference encoding
+		{
+			mc::writeFile("eden.map", pay(3, 0x10)); mc::writeFile("eden.txt", pay(4, 0x20)); mc::writeFile("eden", pay(2, 0x50)); mc::writeFile("edeN.ma", pay(1, 0x60));
+			std::vector<std::string> names = { "eden", "edeN.ma", "eden.map", "eden.txt" };
+			std::vector<std::string> perm = names; std::sort(perm.begin(), perm.end());
+			int k = 0;
+			do { Archive::VolFile::CreateArchive("os.vol", perm); e.emit("vol-same-stem", "perm" + std::to_string(k++), mc::readFile("os.vol")); } while (std::next_permutation(perm.begin(), perm.end()));
+			std::vector<ref::VolMember> ms; for (auto p : { std::make_pair("eden", pay(2, 0x50)), std::make_pair("edeN.ma", pay(1, 0x60)), std::make_pair("eden.map", pay(3, 0x10)), std::make_pair("eden.txt", pay(4, 0x20)) }) { ref::VolMember m; m.name = p.first; m.stored = p.second; ms.push_back(m); }
+			e.emit("vol-same-stem", "reference", ref::encodeVol(ms).bytes);
+		}
 		// reading back: listing and extraction
 		Archive::VolFile v("o.vol");
 		std::string listing; for (std::size_t i = 0; i < v.GetCount(); ++i) listing += v.GetName(i) + ":" + std::to_string(v.GetSize(i)) + ":" + std::to_string(int(v.GetCompressionCode(i))) + ";";
